@@ -38,6 +38,7 @@ MUTANTS = [
     {"name": "cluster-epoch-set-before-err-return", "file": "src/broker/update.rs", "old": "                if removed_chunks.is_empty() {\n                    return Err(MetaStoreError::FreeNodeNotFound);\n                }\n\n                cluster.set_epoch(new_epoch);\n", "new": "                cluster.set_epoch(new_epoch);\n                if removed_chunks.is_empty() {\n                    return Err(MetaStoreError::FreeNodeNotFound);\n                }\n", "expect": "C04.D1:err-after-epoch-write"},
     {"name": "external-commit-not-written-back", "file": "src/broker/external.rs", "old": "        store.commit_migration(task, clear_free_nodes)?;\n        self.update_external_store_and_cache(ExternalStore { store, version })\n            .await?;\n        Ok(())", "new": "        store.commit_migration(task, clear_free_nodes)?;\n        let _ = version;\n        Ok(())", "expect": "C04.D4:external-writes-back:commit_migration"},
     {"name": "memory-backend-calls-other-method", "file": "src/broker/storage.rs", "old": "        self.store.write().auto_add_nodes(cluster_name, node_num)", "new": "        self.store.write().auto_scale_up_nodes(cluster_name, node_num)", "expect": "C04.D4:same-store-call"},
+    {"name": "external-restore-accepts-older", "file": "src/broker/external.rs", "old": "        if store.get_global_epoch() >= meta_store.get_global_epoch() {", "new": "        if store.get_global_epoch() == meta_store.get_global_epoch() {", "expect": "C04.D4:external-restore-guard:incoming-lt-cached"},
 ]
 
 MS = "broker::store::MetaStore"
@@ -263,6 +264,7 @@ def run(ctx):
     _d3(ctx)
     ctx.rule("C04.D4", "storage back-ends agree: for every MetaStorage method the in-memory and the external back-end call the same MetaStore methods, and the external one writes the store back after a mutator")
     _backends_agree(ctx)
+    _external_restore_guard(ctx)
 
 
 def _is_barrier(F, eff, e):
@@ -372,8 +374,19 @@ def _epoch_value_origin(ctx, eff, b, du, B, ok_exits, views, fname):
     for bb, i, op, fld in sites:
         n += 1
         sl = du.slice_operand(op)
-        from_bump = sl.has_call("MetaStore::bump_global_epoch")
-        plus1 = sl.has_call("MetaStore::get_global_epoch") and bool(sl.binops & {"Add", "AddWithOverflow"}) and 1 in sl.const_ints()
+        # precise origin of the written value: only copies / arithmetic are followed, so that a value read from the cluster's
+        # own epoch field (epoch + 1) is not mistaken for the bumped global epoch just because the store is also passed to
+        # bump_global_epoch somewhere in the function
+        from ..lib import producers
+        pr = producers(b, du, op)
+        calls_ = {c for k_, c in pr if k_ == "call"}
+        own_epoch = any(k_ == "field" and c[1] == "epoch" and (c[0] or "").endswith(("ClusterStore", "MigrationMetaStore")) for k_, c in pr)
+        from_bump = any(c.endswith("MetaStore::bump_global_epoch") for c in calls_) and not own_epoch
+        plus1 = any(c.endswith("MetaStore::get_global_epoch") for c in calls_) and any(k_ == "const" and c == 1 for k_, c in pr) and not own_epoch
+        if not pr or all(k_ in ("param", "other", "via") for k_, c in pr):
+            # not resolvable by the precise walk (e.g. a helper's parameter): fall back to the data-dependence slice
+            from_bump = sl.has_call("MetaStore::bump_global_epoch")
+            plus1 = sl.has_call("MetaStore::get_global_epoch") and bool(sl.binops & {"Add", "AddWithOverflow"}) and 1 in sl.const_ints()
         good = from_bump
         why = "value = bump_global_epoch()"
         if not good and plus1:
@@ -632,3 +645,43 @@ def _backends_agree(ctx):
             mcalls = [bb for bb, t in eb.calls() if (callee_of(t) or "").rsplit("::", 1)[-1] in called_muts and (callee_of(t) or "").startswith(MS + "::")]
             ok = bool(pers) and all(any(cfg.reaches(eb, m_, p_) for p_ in pers) for m_ in mcalls)
             ctx.check(ok, "C04.D4", "external-writes-back:%s" % meth, site(eb, mcalls[0]) if mcalls else site(eb), ok="the mutated copy is written back", bad="ExternalHttpStorage::%s mutates the fetched copy with %s and never writes it back: the change (and its epoch) is lost with the copy" % (meth, called_muts))
+
+
+def _external_restore_guard(ctx):
+    """ExternalHttpStorage::restore_metadata replaces the served (cached) store by a pushed snapshot: it must refuse a
+    snapshot whose global epoch is lower than or equal to the cached one, otherwise every epoch served afterwards regresses"""
+    F = ctx.F
+    bs = [b for b in F.all_bodies(bins=False) if b.path.startswith("<broker::external::ExternalHttpStorage as broker::storage::MetaStorage>::restore_metadata") and b.path.endswith("::{closure#0}")]
+    if not bs:
+        ctx.lost("C04.D4", "external-restore-guard", "ExternalHttpStorage::restore_metadata not found")
+        return
+    b = bs[0]
+    ctx.analysed(b)
+    du = DefUse(b)
+    swaps = [bb for bb, t in b.calls() if (callee_of(t) or "").rsplit("::", 1)[-1] in ("swap", "store") and "ArcSwap" in (callee_of(t) or "")]
+    cmps = []
+    for bb, i, st in binop_sites(b):
+        sa = du.slice_operand(st["rv"]["a"]); sb = du.slice_operand(st["rv"]["b"])
+        if not (sa.has_call("get_global_epoch") and sb.has_call("get_global_epoch")):
+            continue
+        a_cached = sa.has_call("ArcSwapAny::load") or sa.has_field("ExternalHttpStorage", "cached_store")
+        b_cached = sb.has_call("ArcSwapAny::load") or sb.has_field("ExternalHttpStorage", "cached_store")
+        if a_cached != b_cached:
+            cmps.append((st, "b" if a_cached else "a"))    # side of the incoming snapshot
+    if not (ctx.floor("C04.D4", "epoch comparison in the external restore", len(cmps), 1) and ctx.floor("C04.D4", "cache swap in the external restore", len(swaps), 1)):
+        return
+    for order in ("lt", "eq", "gt"):   # incoming ? cached
+        def binop(interp, bbx, stmt, op, a, bv, order=order):
+            for st, side in cmps:
+                if st is stmt:
+                    c = {"lt": -1, "eq": 0, "gt": 1}[order]    # incoming - cached
+                    if side == "b":
+                        c = -c    # operand a is the cached one: a ? b  ==  cached ? incoming
+                    return Bool({"Lt": c < 0, "Le": c <= 0, "Gt": c > 0, "Ge": c >= 0, "Eq": c == 0, "Ne": c != 0}[op])
+            return None
+        res = Interp(F, b, Oracle(binop=binop)).run()
+        reach = any(x in res.exec_blocks for x in swaps)
+        want = order == "gt"
+        ctx.check(reach == want, "C04.D4", "external-restore-guard:incoming-%s-cached" % order, site(b), ok="%s" % ("installed" if reach else "ignored"),
+                  bad="a pushed snapshot whose global epoch is %s the cached one is %s: %s" % ({"lt": "lower than", "eq": "equal to", "gt": "greater than"}[order], "installed" if reach else "ignored",
+                      "every epoch served afterwards goes backwards" if order == "lt" else "same epoch, other content" if order == "eq" else "a newer snapshot is never taken"))
